@@ -348,6 +348,65 @@ fn deep_family(run: &mut Run) {
     run.bound("deep.prefix_kinds", json!(["When x d", "DupBlock x d", "(I0 When) x d", "IfElse x d", "(IfElse Close) x d"]));
     run.bound("deep.suffixes", json!("every suffix of length <= 2 (thorough 3; 1 beyond depth 2000) plus close-k-levels-and-continue for k in d-2..=d+2"));
 }
+/// Long *flat* genomes (lengths around 2^8 and 2^16, where a narrow index or counter would wrap):
+/// periodic patterns with bounded nesting, so that length rather than depth is what is explored.
+fn long_flat(run: &mut Run) {
+    let quick = run.quick();
+    let lens: Vec<usize> = if quick { vec![255, 256, 257, 300, 511, 512, 513] } else { vec![255, 256, 257, 300, 511, 512, 513, 1023, 1024, 1025, 4096, 65535, 65536, 65537, 70000] };
+    // the unit patterns: every sequence of 1..=3 symbols (258), repeated to the length and cut there
+    let mut units: Vec<Vec<usize>> = vec![];
+    for ulen in 1..=3usize {
+        let mut idx = vec![0usize; ulen];
+        loop {
+            units.push(idx.clone());
+            let mut k = 0;
+            while k < ulen {
+                idx[k] += 1;
+                if idx[k] < NSYM {
+                    break;
+                }
+                idx[k] = 0;
+                k += 1;
+            }
+            if k == ulen {
+                break;
+            }
+        }
+    }
+    // openers only would nest as deep as the genome is long (covered by the deep family): keep patterns
+    // whose nesting stays bounded, i.e. at least as many closes as opens per period
+    let bounded: Vec<Vec<usize>> = units
+        .into_iter()
+        .filter(|u| {
+            let opens: usize = u.iter().map(|s| match s { 2 | 3 | 4 => 1, 5 => 2, _ => 0 }).sum();
+            let closes = u.iter().filter(|s| **s == 0).count();
+            closes >= opens
+        })
+        .collect();
+    let jobs: Vec<(usize, usize)> = (0..lens.len()).flat_map(|l| (0..bounded.len()).map(move |u| (l, u))).collect();
+    let results = mcx::par::par_map_big(jobs.len(), 1usize << 30, |j| {
+        let (li, ui) = jobs[j];
+        let code: Vec<usize> = bounded[ui].iter().cycle().take(lens[li]).copied().collect();
+        let (v, real) = check_genome(&code);
+        if let Some(real) = real {
+            drop_iteratively(real);
+        }
+        v.map(|(key, what)| {
+            let kind_of_problem = key.split('/').nth(1).unwrap_or("tree").to_string();
+            (format!("parse/{kind_of_problem}/long/len={}", lens[li]), what.chars().take(400).collect::<String>(), json!({"check":"C05","code": code}))
+        })
+    });
+    let n = results.len() as u64;
+    for r in results.into_iter().flatten() {
+        run.violation(r.0, r.1, r.2);
+    }
+    run.evaluations += n;
+    run.distinct_nontrivial += n;
+    run.note("long_flat.genomes", json!(n));
+    run.bound("long_flat.lengths", json!(lens));
+    run.bound("long_flat.patterns", json!(format!("{} periodic patterns of period <= 3 with bounded nesting", bounded.len())));
+}
+
 fn drop_iteratively(p: Vec<PushProgram>) {
     let mut work = p;
     while let Some(x) = work.pop() {
@@ -442,10 +501,11 @@ pub fn run(run: &mut Run) {
         }
     }
     deep_family(run);
+    long_flat(run);
     run.states = shapes.len() as u64;
     run.transitions = run.evaluations;
     run.traces_validated = run.evaluations;
-    run.rule = "all gene sequences of length 0..=N over {Close, literal(position), DupBlock, When, Unless, IfElse}; non-trivial = the parsed program contains at least one block; states = distinct tree shapes among genomes of length <= 8; plus the deep-nesting family (prefix opening d blocks, d dense up to 300 and around powers of two, x short suffixes)".into();
+    run.rule = "all gene sequences of length 0..=N over {Close, literal(position), DupBlock, When, Unless, IfElse}; non-trivial = the parsed program contains at least one block; states = distinct tree shapes among genomes of length <= 8; plus long flat genomes (periodic patterns cut at lengths around 2^8, 2^9 (thorough ..2^16)) and the deep-nesting family (prefix opening d blocks, d dense up to 300 and around powers of two, x short suffixes)".into();
     run.bound("max_genome_len", json!(n_max));
     run.bound("symbols", json!(NSYM));
     run.note("max_nesting_depth_enumerated", json!(depth));
